@@ -505,10 +505,14 @@ var vpC04ProbeOnce sync.Once
 // vpC04ProbeEarlyClose replays the minimal early-close scenario deterministically (one goroutine,
 // MaxConns=1, no timers): stream a chunked response whose tail is a well-formed response for id
 // 777, read 10 bytes, CloseBodyStream, then issue request id=2 on the same client.
-func vpC04ProbeEarlyClose() (present bool, detail string) {
-	cfg := &vpC04Cfg{Kind: vpC04KindHost, MaxConns: 1, ClientStream: true, IdleMs: 10}
+func vpC04ProbeEarlyClose() (present, decided bool, detail string) {
+	// A long idle timeout: the idle-connection cleaner must not be what closes the connection.
+	cfg := &vpC04Cfg{Kind: vpC04KindHost, MaxConns: 1, ClientStream: true, IdleMs: 2000}
 	e := vpC04NewEnv(cfg)
-	defer e.close()
+	defer func() {
+		e.origin.shutdown()
+		e.hc.CloseIdleConnections()
+	}()
 	p1 := &vpC04Plan{Resp: vpC04Resp{ID: 1, Framing: vpC04FrameChunked, PrefixLen: 100, DecoyID: 777, DecoyLen: 5, ChunkSizes: []int{100}}, Faults: []vpC04Fault{{}}}
 	p1.Resp.build()
 	p2 := &vpC04Plan{Resp: vpC04Resp{ID: 2, Framing: vpC04FrameCL, PrefixLen: 32}, Faults: []vpC04Fault{{}}}
@@ -518,21 +522,38 @@ func vpC04ProbeEarlyClose() (present bool, detail string) {
 	c1 := &vpC04Call{ID: 1, Stream: 2, KPermille: 10, Bufs: []int{10}}
 	c2 := &vpC04Call{ID: 2}
 	r1 := vpC04RunCall(e.doer, c1, p1, false, e.hist)
+	if r1.err != nil || !r1.connBack || r1.eof {
+		return false, false, fmt.Sprintf("first call did not leave a partly read connection-backed stream: err=%v connBacked=%v eof=%v", r1.err, r1.connBack, r1.eof)
+	}
+	conns := e.origin.clientConns()
+	if len(conns) != 1 {
+		return false, false, fmt.Sprintf("first call used %d connections", len(conns))
+	}
+	if conns[0].closes.Load() > 0 {
+		return false, true, "CloseBodyStream before EOF closed the connection instead of pooling it"
+	}
 	r2 := vpC04RunCall(e.doer, c2, p2, false, e.hist)
-	if r1.err != nil {
-		return false, fmt.Sprintf("first call failed: %v", r1.err)
+	if n := e.origin.connCount(); n != 1 {
+		// the pooled connection went away for another reason (e.g. idle cleaner on a starved box)
+		return false, false, fmt.Sprintf("second call did not reuse the connection (%d connections)", n)
 	}
 	if v := vpC04Verify(c2, p2, &r2); v != "" {
-		return true, fmt.Sprintf("GET id=1 streamed (chunked, body = 100 own bytes + embedded response for id 777), read %d bytes, CloseBodyStream; next GET id=2 on the same HostClient (MaxConns=1): %s; origin saw %d connection(s)",
-			len(r1.body), v, e.origin.connCount())
+		return true, true, fmt.Sprintf("GET id=1 streamed (chunked, body = 100 own bytes + embedded response for id 777), read %d bytes, CloseBodyStream; next GET id=2 on the same HostClient (MaxConns=1) reuses the connection: %s", len(r1.body), v)
 	}
-	return false, fmt.Sprintf("second call: err=%v hdrID=%s conns=%d", r2.err, r2.hdrID, e.origin.connCount())
+	return false, true, fmt.Sprintf("second call on the same connection: err=%v hdrID=%s", r2.err, r2.hdrID)
 }
 
 func vpC04Steer() bool {
 	vpC04ProbeOnce.Do(func() {
-		present, detail := vpC04ProbeEarlyClose()
-		vpProbe(vpC04KeyEarlyClose, present, detail)
+		for attempt := 0; attempt < 5; attempt++ {
+			present, decided, detail := vpC04ProbeEarlyClose()
+			if decided {
+				vpProbe(vpC04KeyEarlyClose, present, detail)
+				return
+			}
+			vpNote("C04: probe attempt inconclusive (%s)", detail)
+		}
+		// undecided: no probe record, so a listed finding stays open and the generators keep steering
 	})
 	return vpKnownOpen(vpC04KeyEarlyClose)
 }
